@@ -111,10 +111,16 @@ impl<R: Round> Context<R> {
 
             let guard_bits = self.precision.bit_len() * 2; // heuristic
             let rev_context = Context::<R::Reverse>::new(self.precision + guard_bits);
-            let pow = rev_context.powi(base, exp.into()).value();
-            let inv = rev_context.repr_div(Repr::one(), pow.repr);
+            let pow = rev_context.powi(base, exp.into());
+            let pow_inexact = matches!(pow, Inexact(_, _));
+            let inv = rev_context.repr_div(Repr::one(), pow.value().repr);
             let repr = inv.and_then(|v| self.repr_round(v));
-            return repr.map(|v| FBig::new(v, *self));
+            let res = repr.map(|v| FBig::new(v, *self));
+            return match res {
+                // the power itself was rounded: its reciprocal is not the exact value
+                Exact(v) if pow_inexact => Inexact(v, Rounding::NoOp),
+                r => r,
+            };
         }
         if exp.is_zero() {
             return Exact(FBig::ONE);
